@@ -50,6 +50,13 @@ class Delta:
         return " ".join(out)
 
 
+def safe_dump(ad, a, delta):
+    try:
+        return ad.dump(a, delta)
+    except Exception as e:
+        return f"DUMP-EXC {type(e).__name__}"
+
+
 def node_strs(part, st_str):
     out = []
     for i, nd in enumerate(part._all):
@@ -128,6 +135,9 @@ class HOOAd(Adapter):
     name = "T_HOO"
     families = ("tree",)
 
+    def defaults(self, T):
+        return {"nu": 1.0, "rho": 0.5, "rounds": 1000}
+
     def gen_params(self, rnd, T):
         return {"nu": rnd.choice([1.0, 0.5, 2.0, 0.1, 4.0]), "rho": rnd.choice([0.5, 0.25, 0.75, 0.9, 0.3]),
                 "rounds": rnd.choice([T, T, 1000, 10 * T, 100])}
@@ -152,6 +162,12 @@ class HCTAd(Adapter):
     name = "HCT"
     families = ("tree",)
     variance = False
+
+    def defaults(self, T):
+        d = {"nu": 1.0, "rho": 0.5, "c": 0.1, "delta": 0.01}
+        if self.variance:
+            d["bound"] = 1.0
+        return d
 
     def gen_params(self, rnd, T):
         p = {"nu": rnd.choice([1.0, 0.5, 2.0, 1.0]), "rho": rnd.choice([0.5, 0.25, 0.75, 0.6]),
@@ -258,14 +274,15 @@ def sto_str(nd):
 class StoSOOAd(Adapter):
     name = "StoSOO"
     time_sensitive = True
+    none_keeps_state = True       # the driver follows the implementation through a pull that returns None
 
     def outside(self, meta):
         return "depth cap smaller than the number of rounds" if meta["params"]["h_max"] < meta["T"] else None
 
     def gen_params(self, rnd, T):
-        p = {"n": rnd.choice([T, T, 2 * T, 1000]), "h_max": rnd.choice([100, 100, 1000, 4, 6])}
-        if rnd.random() < 0.5:
-            p["k"] = rnd.choice([1, 2, 3, 5])
+        p = {"n": rnd.choice([T, T, 2 * T, 1000]), "h_max": rnd.choice([100, 100, 1000, 4, 6, 2, 3])}
+        if rnd.random() < 0.5 or p["h_max"] <= 6:
+            p["k"] = rnd.choice([1, 1, 2, 3, 5])
         if rnd.random() < 0.3:
             p["delta"] = rnd.choice([0.1, 0.01, 0.5])
         return p
@@ -422,7 +439,7 @@ class GPOAd(Adapter):
     def gen_params(self, rnd, T):
         base = {"PCT": "HCT", "VPCT": "VHCT"}.get(self.wrapper) or rnd.choice(["T_HOO", "HCT", "VHCT"])
         return {"base": base, "numax": rnd.choice([1.0, 0.5, 2.0]),
-                "rhomax": rnd.choice([0.5, 0.6, 0.7, 0.75, 0.8, 0.4, 0.5, 0.6, 0.97]), "rounds": rnd.choice([T, T, 100, 2 * T])}
+                "rhomax": rnd.choice([0.5, 0.6, 0.7, 0.75, 0.8, 0.4, 0.5, 0.6, 0.97]), "rounds": rnd.choice([T, T, 100, 2 * T, T + 1, 2 * T + 1, 129, 191, 281])}
 
     def gpo(self, a):
         return a.algorithm if self.wrapper else a
@@ -497,8 +514,14 @@ class VPCTAd(GPOAd):
 class ZoomingAd(Adapter):
     name = "Zooming"
 
+    def defaults(self, T):
+        return {"nu": 1.0, "rho": 0.9}
+
     def gen_params(self, rnd, T):
-        return {"nu": rnd.choice([1.0, 0.5, 2.0, 4.0]), "rho": rnd.choice([0.9, 0.5, 0.75, 0.95])}
+        return {"nu": rnd.choice([1.0, 0.5, 2.0, 4.0, 8.0]), "rho": rnd.choice([0.9, 0.5, 0.75, 0.95])}
+
+    def fix_T(self, p, T):
+        return T * 3 if T >= 100 else T            # some long runs: refinement three and more levels deep
 
     def construct(self, p, box, pcls):
         from PyXAB.algos.Zooming import Zooming
@@ -692,7 +715,12 @@ def gen_algo_case(seed, idx, algo=None, force=None, monitors_on=True, T=None, ho
     rmode = force.get("rmode") or rnd.choice(REWARD_MODES)
     qmode = force.get("qmode") or rnd.choice(["mixed", "dyadic", "random", "end", "half"])
     params = force.get("params") or ad.gen_params(rnd, T)
-    if hasattr(ad, "fix_T"):
+    if not force.get("params") and hasattr(ad, "defaults") and rnd.random() < 0.3:
+        params.update(ad.defaults(T))          # the library's default arguments are the most used configuration
+        case_defaults = True
+    else:
+        case_defaults = False
+    if hasattr(ad, "fix_T") and not force.get("T"):
         T = ad.fix_T(params, T)
     t0 = force.get("t0", rnd.choice([1, 1, 0, 17]) if not getattr(ad, "time_sensitive", False) else 1)
     n_queries = force.get("queries", rnd.choice([0, 0, 1, 3]))
@@ -703,9 +731,22 @@ def gen_algo_case(seed, idx, algo=None, force=None, monitors_on=True, T=None, ho
     for k in ("kind", "d", "rmode", "qmode", "bmode"):
         case.tags[f"{k}={meta[k]}"] += 1
     case.tags[f"algo={ad.name}"] += 1
+    if case_defaults:
+        case.tags["params=library-defaults"] += 1
     if kind in ("kary", "randKary"):
         case.tags[f"K={K}"] += 1
-    hooks = hooks or {}
+    raw_hooks = hooks or {}
+
+    def _safe(fn, nm):
+        def call(*args):
+            try:
+                return fn(*args)
+            except HangError:
+                raise
+            except Exception as e:      # the live objects are in a shape the monitor did not expect
+                case.fail("*", "monitor-exception", f"{nm}: {type(e).__name__}: {e}", algo=ad.name)
+        return call
+    hooks = {k: _safe(v, k) for k, v in raw_hooks.items()}
     # independent streams: rewards, random draws and query positions do not depend on how the
     # configuration was chosen (relational checks re-run a case with parts of it forced)
     rrnd = random.Random(f"rew-{seed}-{idx}-{ad.name}")
@@ -717,6 +758,11 @@ def gen_algo_case(seed, idx, algo=None, force=None, monitors_on=True, T=None, ho
     else:
         query_rounds = set(qrnd.sample(range(T), min(n_queries, T))) if ad.name in ("T_HOO", "HCT", "VHCT", "Zooming", "POO") else set()
     labels = force.get("labels")
+    MID = ("VROOM", "SOO", "DOO", "SequOOL", "StoSOO", "T_HOO", "HCT", "VHCT", "POO")
+    if force.get("mid_queries") is not None:
+        mid_queries = set(force["mid_queries"])
+    else:
+        mid_queries = set(qrnd.sample(range(T), min(T, 3))) if (ad.name in MID and qrnd.random() < 0.15) else set()
     if ad.name in ("POO", "GPO", "PCT", "VPCT"):
         import copy as _copy
         ad = _copy.copy(ad)      # adapters of wrappers keep per-case state
@@ -747,7 +793,7 @@ def gen_algo_case(seed, idx, algo=None, force=None, monitors_on=True, T=None, ho
         except TypeError:
             line, exp = ad.init_line(params, kind, K, box, list(glog))
         case.op(line, exp)
-        case.op("A.dump", ad.dump(a, delta))
+        case.op("A.dump", safe_dump(ad, a, delta))
         if monitors_on:
             for p_ in parts():
                 for sig, det in monitors.c03_tree(p_):
@@ -784,6 +830,17 @@ def gen_algo_case(seed, idx, algo=None, force=None, monitors_on=True, T=None, ho
                 case.op(pull_line, "ERR ReturnedNone")
                 case.fail("C01", "pull-returned-none", "pull returned None", step=i, algo=ad.name)
                 case.stopped = "pull-none"
+                if getattr(ad, "none_keeps_state", False):
+                    case.op("A.dump", safe_dump(ad, a, delta))
+                    mark, rmark = len(glog), len(rng.log)
+                    try:
+                        q = guarded(a.get_last_point)
+                        case.op(ad.last_line(glog[mark:], rng.log[rmark:], a, ctx), ad.pt_str(a, parts(), q))
+                        ctx["last"] = q
+                        if "at_end" in hooks:
+                            hooks["at_end"](ctx)
+                    except Exception as e:
+                        case.op(ad.last_line(glog[mark:], rng.log[rmark:], a, ctx), "ERR " + exc_name(e))
                 break
             case.op(pull_line, ad.pt_str(a, parts(), pt))
             ctx["points"].append(list(pt)); ctx["pulled"].append(nd)
@@ -791,6 +848,17 @@ def gen_algo_case(seed, idx, algo=None, force=None, monitors_on=True, T=None, ho
                 monitors.c01_point(case, box, pt, i, ad.name)
             if "after_pull" in hooks:
                 hooks["after_pull"](ctx, i, pt)
+            if i in mid_queries:
+                # a recommendation query between pull and receive_reward must not disturb the crediting
+                mark, rmark = len(glog), len(rng.log)
+                try:
+                    q = guarded(a.get_last_point)
+                    case.op(ad.last_line(glog[mark:], rng.log[rmark:], a, ctx), ad.pt_str(a, parts(), q))
+                    case.tags["op=mid-round-query"] += 1
+                    if ad.name == "VROOM":
+                        pass
+                except Exception as e:
+                    case.op(ad.last_line(glog[mark:], rng.log[rmark:], a, ctx), "ERR " + exc_name(e))
             r = float(reward_fn(i, pt))
             ctx["rewards"].append(r)
             mark = len(glog)
@@ -802,7 +870,7 @@ def gen_algo_case(seed, idx, algo=None, force=None, monitors_on=True, T=None, ho
                 case.stopped = "recv"
                 break
             case.op(f"A.recv {fbits(r)} {draws_str(glog[mark:])}", "ok")
-            case.op("A.dump", ad.dump(a, delta))
+            case.op("A.dump", safe_dump(ad, a, delta))
             if monitors_on:
                 for p_ in parts():
                     for sig, det in monitors.c03_tree(p_):
